@@ -34,6 +34,9 @@ def jobs(tier):
     for shape, sd, tiers in shapes:
         for fn in ALL:
             items.append((fn, shape, sd, tiers, dict(budget=900)))
+    for fn in ALL:      # converters with a history: queried, then given one more record / queried before
+        items.append((fn, [[0, 0], [0, 0]], False, Q, dict(budget=900, params=dict(built="grow"))))
+        items.append((fn, [[1, 1]], False, T, dict(budget=900, params=dict(built="merge"))))
     return shape_jobs(items, tier, {fn: ["none", "value"] for fn in ALL})
 
 
